@@ -4181,15 +4181,18 @@ class FuncSum(ValueFunc):
             if skipvalue:
                 continue
 
-            if value.isInt():
-                result += value.value
-            elif value.isDecimal():
-                result += value.value
-                decimalrequired = True
-            else:
+            if not value.isNumerical():
                 raise CklRuntimeError(
                     ValueString("ERROR"), "Cannot sum " + value.type(), pos
                 )
+            try:
+                result += value.value
+            except OverflowError:
+                raise CklRuntimeError(
+                    ValueString("ERROR"), "Numeric overflow in sum", pos
+                )
+            if value.isDecimal():
+                decimalrequired = True
 
         if decimalrequired:
             return ValueDecimal(result)
